@@ -9,7 +9,7 @@ import (
 	"golang.org/x/tools/go/ssa"
 )
 
-func init() { register("C12", "the environment API behaves as a chain of dictionaries", checkC12) }
+func init() { register("C12", "the environment API behaves as a chain of dictionaries", func(p *Program, r *Report) { checkC12(p, r); c12Extra(p, r) }) }
 
 func checkC12(p *Program, r *Report) {
 	r.Explain("C12: structural skeleton of the dictionary-chain refinement, decided on the SSA of package env (closed world: unexported fields). " +
@@ -1064,4 +1064,98 @@ func (m *envModel) underOwnHit(b *ssa.BasicBlock, recv ssa.Value) bool {
 		}
 	}
 	return false
+}
+
+// c12Extra: R8 the interface-valued wrappers (Define/Set ...) end in one and the same reflect-valued operation on every path;
+// R9 a module path is resolved in the selected module's own table after its first component.
+func c12Extra(p *Program, r *Report) {
+	m, err := buildEnvModel(p)
+	if err != nil {
+		return
+	}
+	r.Explain("R8 a wrapper that takes the value as interface{} calls the same reflect.Value operation of the scope on every path (the nil branch and the non-nil branch of Set both end in SetValue). " +
+		"R9 the path lookup moves along the parent chain only itself and only for the first component: it calls no operation of the scope that walks the parent chain or consults the external lookup.")
+	fns := SrcFuncs(m.sp)
+	n := 0
+	for _, fn := range fns {
+		sg := fn.Signature
+		if sg.Recv() == nil || sg.Params().Len() != 2 || !types.IsInterface(sg.Params().At(1).Type()) || isErrorType(sg.Params().At(1).Type()) || len(fn.Blocks) == 0 {
+			continue
+		}
+		callees := map[*ssa.Function]bool{}
+		for _, b := range fn.Blocks {
+			for _, in := range b.Instrs {
+				c, ok := in.(*ssa.Call)
+				if !ok {
+					continue
+				}
+				callee := staticCallee(c)
+				if callee == nil || callee.Pkg != m.sp || len(c.Call.Args) != 3 || !isReflectValue(c.Call.Args[2].Type()) {
+					continue
+				}
+				callees[callee] = true
+			}
+		}
+		if len(callees) == 0 {
+			continue
+		}
+		n++
+		var names []string
+		for c := range callees {
+			names = append(names, c.Name())
+		}
+		sort.Strings(names)
+		r.Check(len(callees) == 1, "C12.R8", funcName(fn)+"|one operation on every path", p.Pos(fn.Pos()), "always "+names[0],
+			fmt.Sprintf("the wrapper ends in different operations depending on the value (%v): for some values (nil) it defines where it should update the nearest binding, or the reverse", names))
+	}
+	r.Floor("C12.R8", n, 2)
+
+	// chain walkers: functions of the scope that read the parent link or the external lookup (transitively)
+	walker := map[*ssa.Function]bool{}
+	for iter := 0; iter < 5; iter++ {
+		for _, fn := range fns {
+			if walker[fn] {
+				continue
+			}
+			for _, b := range fn.Blocks {
+				for _, in := range b.Instrs {
+					switch x := in.(type) {
+					case *ssa.FieldAddr:
+						if x.Field == m.parentI && m.isEnvPtr(x.X.Type()) {
+							walker[fn] = true
+						}
+						if fieldOfAddr(x).Name() == "externalLookup" {
+							walker[fn] = true
+						}
+					case *ssa.Call:
+						if callee := staticCallee(x); callee != nil && walker[callee] {
+							walker[fn] = true
+						}
+					}
+				}
+			}
+		}
+	}
+	n9 := 0
+	for _, fn := range fns {
+		// the path lookup: a method taking a []string path and returning (*Env, error)
+		sg := fn.Signature
+		if sg.Recv() == nil || sg.Params().Len() != 1 || sg.Params().At(0).Type().String() != "[]string" || sg.Results().Len() != 2 || !m.isEnvPtr(sg.Results().At(0).Type()) {
+			continue
+		}
+		n9++
+		bad := ""
+		for _, b := range fn.Blocks {
+			for _, in := range b.Instrs {
+				if c, ok := in.(*ssa.Call); ok {
+					if callee := staticCallee(c); callee != nil && callee.Pkg == m.sp && walker[callee] && callee != fn {
+						bad = callee.Name() + " at " + p.Pos(c.Pos())
+					}
+				}
+			}
+		}
+		r.Check(bad == "", "C12.R9", funcName(fn)+"|components resolved in the module's own table", p.Pos(fn.Pos()), "only direct table lookups",
+			"the path lookup calls "+bad+", which walks the parent chain (and the external lookup): a later path component is found in an enclosing scope or a sibling module instead of failing")
+	}
+	r.Floor("C12.R9", n9, 1)
 }
